@@ -24,12 +24,45 @@ CLEAN_KINDS = [k for k in slots.ALL_KINDS if k not in ('image-title', 'image-alt
                                                         'meta-html-header')]
 
 
+# text that looks like the *start or end* of markup but is not a complete construct: no pass-through is documented for it
+HALF_MARKUP = ['<!--', '-->', '<?', '?>', '<![CDATA[', ']]>', '</', '< ', '<1', '<-', '&#', '&#x', '& ', '&x', '<!', '<!-', '--', '<a', '<a href=', 'b>', '/>']
+
+
+NO_ANGLE = None
+HALF_KINDS = None
+
+
+def half_payload(half):
+    def f(rng, kind):
+        # no other angle bracket in the same payload: together with the half it would form a complete tag, which *is* passed through by design
+        out = ''.join(rng.choice(NO_ANGLE) for _ in range(rng.randint(1, 3)))
+        if kind in ('link-title', 'ref-title'):
+            out = out.replace('"', "'")
+        if kind in ('meta-key', 'meta-css', 'manual-label', 'superscript', 'subscript'):
+            out = out.replace(' ', '').replace('\t', '')
+        if rng.random() < 0.7:
+            h = half
+            if kind in ('link-url', 'autolink', 'email', 'meta-key', 'meta-css', 'manual-label', 'superscript', 'subscript'):
+                h = h.replace(' ', '')
+            out = rng.choice([h + out, out + h, out + h + out, h])
+        return out
+    return f
+
+
+def _init_half():
+    global NO_ANGLE, HALF_KINDS
+    NO_ANGLE = [a for a in CLEAN if '<' not in a and '>' not in a]
+    HALF_KINDS = [k for k in CLEAN_KINDS if k not in ('autolink', 'email', 'link-url')]
+
+
 def clean_payload(rng, kind):
     out = ''.join(rng.choice(CLEAN) for _ in range(rng.randint(1, 4)))
     if kind in ('link-url', 'autolink', 'email', 'meta-key', 'meta-css', 'manual-label', 'superscript', 'subscript'):
         out = out.replace(' ', '').replace('\t', '')
     if kind in ('link-title', 'ref-title'):
         out = out.replace('"', "'")          # stays one title
+    if kind in ('autolink', 'email'):
+        out = out.replace('<', '').replace('>', '') or 'x'       # with the slot's own brackets these would spell a complete tag
     return out
 
 
@@ -53,7 +86,7 @@ def wellformed(data):
 RAW_TAG = re.compile(rb'<(?:[A-Za-z/!?])')
 
 
-def cause_of(data, err, off, src, kind):
+def cause_of(data, err, off, src, kind, strict=False):
     """name the mechanism (stable key part): by-design passthrough of author-typed markup, or an escaping site"""
     msg = expat.ErrorString(err.code)
     near = data[max(0, off - 2):off + 24]
@@ -63,7 +96,7 @@ def cause_of(data, err, off, src, kind):
         return 'char-ref-passthrough'
     if data[off:off + 3] == b'<<}' or data[max(0, off - 1):off + 2] == b'<<}':
         return 'critic-comment-close-unescaped'
-    if RAW_TAG.search(src) or b'{=' in src or kind in ('raw-filter', 'html-inline', 'html-block', 'html-comment'):
+    if not strict and (RAW_TAG.search(src) or b'{=' in src or kind in ('raw-filter', 'html-inline', 'html-block', 'html-comment')):
         # raw HTML / XML typed by the author is copied into the output by design; the parser trips on it or on the tag that no longer matches
         return 'raw-markup-passthrough'
     return 'escaping:%s:%s' % (msg.replace(' ', '-'), kind)
@@ -91,17 +124,24 @@ MEMBERS = {
 
 
 def work(job):
+    _init_half()
     seed, lo, hi = job
     r = core.JobResult()
     with core.Session(r) as s:
         for i in range(lo, hi):
             rng = core.job_rng(seed, ID, i)
             mode = rng.random()
+            strict = 0.4 <= mode < 0.8          # clean / half-markup documents hold no complete raw construct: nothing is passed through by design
             if mode < 0.4:
                 text, sl = slots.build(rng, payload)
-            elif mode < 0.8:
+            elif mode < 0.6:
                 text, sl = slots.build(rng, clean_payload, kinds=CLEAN_KINDS, nslots=rng.randint(1, 4))
                 r.stats['clean_documents'] += 1
+            elif mode < 0.8:
+                half = rng.choice(HALF_MARKUP)
+                text, sl = slots.build(rng, half_payload(half), kinds=HALF_KINDS, nslots=1)
+                r.stats['half_markup_documents'] += 1
+                r.sets['half_markup_atoms'].add(half)
             else:
                 from lib import gendoc
                 text, sl = gendoc.random_document(rng), []
@@ -135,7 +175,7 @@ def work(job):
                     if e is not None:
                         kind, off = context_kind(data, e, sl)
                         msg = expat.ErrorString(e.code)
-                        r.violate('not-wellformed:%s:%s' % (name, cause_of(data, e, off, src, kind)),
+                        r.violate('not-wellformed:%s:%s' % (name, cause_of(data, e, off, src, kind, strict)),
                                   '%s is not well-formed XML: %s at line %d col %d (slot kind %s)' % (name, msg, e.lineno, e.offset, kind),
                                   dict(requests=[rq], member=name), 'around: %s\nsource: %s' % (core.show(data[max(0, off - 80):off + 40], 200), core.show(src, 500)))
             r.distinct.add(core.h64(src, ext, lang))
